@@ -13,3 +13,9 @@ def rational_fit_path(o):
         return True
     w = o.get("witness") or {}
     return bool(w.get("rational"))
+
+
+def closed_rule_on_discontinuous(o):
+    """D12: only the closed Newton-Cotes rule, and only on a curve that has an interior knot of multiplicity degree+1."""
+    t = o.get("tags", {})
+    return t.get("method") == "closed-newton-cotes" and t.get("discontinuous") is True
